@@ -143,6 +143,9 @@ def cases(ctx):
                 yield ("lineidx", t, size, numbering)
     for t in range(0x30, 0xA9):
         yield ("types", t)
+    for t in range(0x00, 0xFE):
+        for first in (0x84, 0x35, 0x3D):
+            yield ("types-inner", t, first)
     # every tag type as a group that FOLLOWS a section whose data is still pending / already closed, for 3 kinds of first section
     for t in range(0x00, 0xFE):          # FE / FF are the group markers, not data tag types
         for first in (0x35, 0x3D, 0x84):
@@ -347,6 +350,14 @@ def run_case(ctx, case):
             evs.append(("instr", "SELECT_IF", {"PROTOCOL": "BRP-SER"}))
         evs += [("group", B.image_lines(t, image(ctx, "ty", 6), 4, extra=b"\x01"))]
         compare(o, evs, "section with tag type %02X" % t)
+        return o
+    if kind == "types-inner":
+        # tag type t on a line that is NOT the first of its group (the group opens with a known type)
+        _, t, first = case
+        a = B.image_lines(first, image(ctx, "tia", 8), 4, extra=b"\x01" if first == 0x84 else b"")
+        b = B.image_lines(t, image(ctx, "tib", 4), 4, start=8 if first != 0x84 else 0, index0=2, extra=b"\x01" if first == 0x84 else b"")
+        evs = list(HEAD) + [("group", a + b), ("instr", "REBOOT", {})]
+        compare(o, evs, "tag type %02X as a later line of a group that opens with %02X" % (t, first))
         return o
     if kind == "types2":
         _, t, first, where = case
